@@ -318,9 +318,9 @@ fn main() {
 
             let mut diags = Vec::new();
             let parsed = parser.parse_from_file(
-                lint.path
-                    .to_str()
-                    .expect("unable to convert path to string"),
+                // a path that is not valid UTF-8 cannot be opened by name
+                // below; it is reported like any other unreadable file
+                &lint.path.to_string_lossy(),
                 false,
             );
             parsed
@@ -375,12 +375,7 @@ fn main() {
             // Debug mode that prints out parsing errors only
             let reader = IOFileReader::new();
             let mut parser = RVParser::new(reader);
-            let parsed = parser.parse_from_file(
-                debu.input
-                    .to_str()
-                    .expect("unable to convert path to string"),
-                true,
-            );
+            let parsed = parser.parse_from_file(&debu.input.to_string_lossy(), true);
             for err in parsed.1 {
                 println!(
                     "({}, {}): {}",
